@@ -527,3 +527,78 @@ var c09ExamineAllowed = []*regexp.Regexp{
 	regexp.MustCompile(`^.*\.SignedHeader\.Header\.Height != targetBlock\.SignedHeader\.Header\.Height$`),
 	regexp.MustCompile(`^false\(bytes\.Equal\(.*\.Hash\(\), trace\[IDX\]\.SignedHeader\.Header\.Hash\(\)\)\)$`),
 }
+
+// ------------------------------------------------------------------ C09.R5
+// (a) verifySkippingAgainstPrimary(trusted, target) answers for its own target: the caller trusts exactly the
+// block it passed. Inside, every verification call must therefore verify that parameter, or a block
+// shown hash-equal to it (the block a replacement primary returned after the old one was dropped).
+// (b) a header needs a witness other than the primary: wherever a client is built from one provider list,
+// the witnesses are a slice of the list that cannot contain the element chosen as primary.
+func init() {
+	register("C09", "R5", "K1+K3", "skipping verification succeeds only for its own target (or a block proven hash-equal to it); constructors never hand the primary over as one of its own witnesses", 5, func(c *Ctx) {
+		w := c.W
+		k := newKeyer()
+		if f := c.fn("light", "Client.verifySkippingAgainstPrimary"); f != nil {
+			fk := funcKey(f)
+			target := "newLightBlock"
+			n := 0
+			for _, dc := range w.deepCallsTo(f, 2, "light#Client.verifySkipping", "light#Client.verifySkippingAgainstPrimary") {
+				idx := 3 // verifySkipping(ctx, source, trusted, new, now)
+				if callee := staticCallee(dc.call); callee != nil && callee.Name() == "verifySkippingAgainstPrimary" {
+					idx = 2
+				}
+				arg := dc.arg(idx)
+				n++
+				if arg == target {
+					c.OK(k.key(f, "verifies its own target"), w.ipos(dc.site), "target passed through")
+					continue
+				}
+				A := q(arg)
+				c.guards(f, dc.site, k.key(f, "verifies another block in place of the target"), 0,
+					guardRe("that block has the target's hash", `^true\(bytes\.Equal\(`+A+`(\.SignedHeader\.Header)?\.Hash\(\), `+target+`(\.SignedHeader\.Header)?\.Hash\(\)\)\)$`))
+			}
+			c.Check(n >= 2, fk+" :: verification calls found", w.pos(f.Pos()), "verifySkipping and the retry", fmt.Sprintf("%d verification calls", n))
+		}
+		for _, s := range w.allCallsTo("light#NewClient", "light#NewClientFromTrustedStore") {
+			if strings.HasSuffix(w.Fset.Position(s.Instr.Pos()).Filename, "_test.go") {
+				continue
+			}
+			call := s.Instr.(ssa.CallInstruction)
+			var prim, wit ssa.Value
+			for _, a := range call.Common().Args {
+				switch a.Type().String() {
+				case "github.com/tendermint/tendermint/light/provider.Provider":
+					prim = a
+				case "[]github.com/tendermint/tendermint/light/provider.Provider":
+					wit = a
+				}
+			}
+			if prim == nil || wit == nil {
+				c.Undecided(k.key(s.Fn, "client construction"), w.ipos(s.Instr), "primary / witnesses arguments not identified")
+				continue
+			}
+			key := k.key(transparentRoot(outermost(s.Fn)), "primary is not among the witnesses handed over")
+			sl, isSlice := stripConv(wit).(*ssa.Slice)
+			var ia *ssa.IndexAddr
+			if ld, ok := stripConv(prim).(*ssa.UnOp); ok {
+				ia, _ = ld.X.(*ssa.IndexAddr)
+			}
+			if !isSlice || ia == nil || w.expr(sl.X) != w.expr(ia.X) {
+				c.OK(key, w.ipos(s.Instr), "primary and witnesses come from different sources")
+				continue
+			}
+			disjoint := false
+			if sl.Low == nil && sl.High != nil && w.expr(sl.High) == w.expr(ia.Index) {
+				disjoint = true // list[:i] and list[i]
+			}
+			if sl.Low != nil {
+				if lo, ok := constInt(sl.Low); ok {
+					if i, ok2 := constInt(ia.Index); ok2 && i < lo {
+						disjoint = true // list[i] and list[lo:], i < lo
+					}
+				}
+			}
+			c.Check(disjoint, key, w.ipos(s.Instr), "witnesses = list without the primary's position", "the witnesses "+w.expr(wit)+" include the primary "+w.expr(prim)+": its own reply then counts as a witness's confirmation")
+		}
+	})
+}
